@@ -19,7 +19,7 @@ RULE = ("seeded history of 0-4 committed operations, then one operation under te
         "every k in 1..N); after each crash a fresh process reopens, reads with the independent reader and the "
         "library, appends, advances the clock 25 h and garbage-collects; backends local, CAS-S3 and non-CAS S3. One evaluation = one (history, operation, "
         "k). Distinct = SHA-1 of the write/lock/pointer event sequence up to the crash; non-trivial = the crash "
-        "landed after the operation's first write and before its last seam call.")
+        "landed after the operation's first write and before its last seam call. Operations include append_files of a pre-built file (also handed over too early).")
 ASSUMPTIONS = common.BASE_ASSUMPTIONS + [
     "process death = no further storage effect from that process, its fds closed (kernel releases flock); on S3 "
     "the lock object remains and recovery starts after the 60 s lease",
